@@ -5,6 +5,19 @@ theorems quantify over every interleaving of lock regions and out-of-lock resolu
 of producers and consumers.
 
 Items carry the (ghost) serial number of the push that brought them: `(pushId, value)`.
+
+Throwing items.  `T` may refuse to be constructed from the arguments of `push` (`Op.pushthrow`), and a *hand-over* -
+the construction of a `T` from another `T`, by move or copy - may throw.  A call is run under a fault plan `(g, n)`:
+the hand-overs number `g … g+n-1` that this call performs throw (`throwsAt`; `n = 0`: none), each before anything is
+moved (strong guarantee of the item's constructor; `std::deque::emplace_back` has no effect when the construction
+throws).  The model counts the hand-overs exactly where the code performs them:
+
+* `pop` (queue.h:299-332): #1 `promise(std::move(_queue.front()))` - the consumer's value is constructed from the head
+  item *before* anything is removed; then, for the blocked producers from the oldest on, one hand-over each
+  (`_queue.push(std::move(front.first))`, #2, #3, …) until one succeeds.
+* `push` (queue.h:275-293): none when a consumer waits (`p(args…)` constructs in the future) or there is room
+  (`_queue.emplace(args…)`); two when the producer blocks (`{T(args…), promise}`: temporary → pair → `_blocked`).
+* `unblock_push` (queue.h:347-354): #1 `auto front = std::move(_blocked.front())`.
 -/
 namespace Cocls.LQ
 
@@ -14,6 +27,7 @@ inductive Out where
   | ok                          -- push accepted
   | exc (c : Nat)               -- failed by unblock_* with exception code c
   | canceled                    -- promise destroyed without value
+  | itemerr                     -- push: the item threw when it was moved into the queue (it is withdrawn)
   deriving DecidableEq, Repr, Inhabited
 
 /-- a resolution of one of the futures the queue handed out -/
@@ -33,7 +47,7 @@ structure State where
   alive : Bool := true
   -- ghost
   assigned : List (Nat × (Nat × Nat)) := []   -- (pop id, item) in hand-over order
-  withdrawn : List Nat := []                  -- push ids removed by unblock_push
+  withdrawn : List Nat := []                  -- push ids removed by unblock_push / a failed admission / destruction
   completed : List Ev := []                   -- resolutions performed so far, in order
   deriving Repr
 
@@ -46,6 +60,11 @@ inductive Op where
   | empty
   | destroy
   | deliver (k : Nat)     -- perform the k-th in-flight resolution
+  -- throwing items
+  | pushthrow                       -- `push` of an item that refuses to be constructed
+  | pushmv (v : Nat) (g n : Nat)    -- `push v` under the fault plan (g, n)
+  | popthrow (g n : Nat)            -- `pop` under the fault plan (g, n) (plain call or from a coroutine)
+  | upushthrow (c : Nat) (g n : Nat)
   deriving Repr, DecidableEq
 
 inductive Res where
@@ -55,9 +74,13 @@ inductive Res where
   | num (n : Nat)
   | unit
   | bad
+  | threw                 -- the exception of the item left the call: no future
   deriving Repr, DecidableEq
 
 def init (limit : Nat) : State := { limit := limit }
+
+/-- fault plan `(g, n)`: does the `k`-th hand-over of the call throw? -/
+def throwsAt (g n k : Nat) : Bool := decide (g ≤ k ∧ k < g + n)
 
 /-- `limited_queue::push` lock region -/
 def stepPush (s : State) (v : Nat) : State × Res :=
@@ -75,24 +98,61 @@ def stepPush (s : State) (v : Nat) : State × Res :=
         ({ s with items := s.items ++ [(id, v)], nextPush := id + 1,
                   completed := s.completed ++ [Ev.push id Out.ok] }, Res.push id true)
 
-/-- `limited_queue::pop` lock region -/
-def stepPop (s : State) : State × Res :=
+/-- `push` under a fault plan.  Only the blocking path hands the item over (twice: temporary → pair → `_blocked`,
+queue.h:286); when either throws, the pair never reaches `_blocked` (`std::deque::emplace_back` has no effect), the
+promise of the `future<void>` under construction dies with it, the `unique_lock` unlocks during unwinding and the
+exception leaves `push`: no future, nothing changed. -/
+def stepPushMv (s : State) (v g n : Nat) : State × Res :=
+  if s.waiters.isEmpty && decide (s.items.length ≥ s.limit) && (throwsAt g n 1 || throwsAt g n 2) then (s, Res.threw)
+  else stepPush s v
+
+/-- `push` of an item whose constructor throws.
+Nobody waiting: the constructor runs inside the lock region (`_queue.emplace`, queue.h:289, or `T(args…)` in the
+initialiser of the blocked producer's future, queue.h:286) - nothing changes.
+A consumer waiting (queue.h:277-282): its promise is moved out under the lock, the lock is dropped, `p(args…)`
+constructs the item inside the future: the constructor throws after `promise::set_value` claimed the promise, which
+resolves the future *without a value* (future.h:645-653) - the waiting pop completes as canceled, out of the lock,
+hence in flight first.  Either way the exception reaches the caller and no item exists. -/
+def stepPushThrow (s : State) : State × Res :=
+  match s.waiters with
+  | [] => (s, Res.threw)
+  | w :: ws => ({ s with waiters := ws, inflight := s.inflight ++ [Ev.pop w Out.canceled] }, Res.threw)
+
+/-- The admission loop of `pop` (queue.h:315-326): candidates from the oldest blocked producer on; `k` is the number of
+the next hand-over of the call.  A candidate whose item throws on the way into the queue is failed (its item is
+withdrawn), the first one that does not is admitted.  Returns (failed, admitted, rest). -/
+def admitLoop (g n : Nat) : Nat → List (Nat × Nat) → List (Nat × Nat) × Option (Nat × Nat) × List (Nat × Nat)
+  | _, [] => ([], none, [])
+  | k, b :: bs =>
+      if throwsAt g n k then
+        ((b :: (admitLoop g n (k + 1) bs).1), (admitLoop g n (k + 1) bs).2.1, (admitLoop g n (k + 1) bs).2.2)
+      else ([], some b, bs)
+
+/-- `limited_queue::pop` lock region under the fault plan `(g, n)`.
+Empty queue: the promise is parked, nothing is handed over.
+Otherwise hand-over #1 constructs the consumer's value straight from `_queue.front()`; when it throws,
+`promise::set_value` resolves the future under construction and rethrows, the exception leaves the initialiser of
+`future<T>` and `pop()` itself *before* `_queue.pop()` is reached: no future (no pop serial), nothing changed.
+Once the item is delivered nothing throws out of `pop` any more: the admission loop (`admitLoop`) fails the producers
+whose item refuses the move - with the item's exception, out of the lock - and admits the next one. -/
+def stepPopF (s : State) (g n : Nat) : State × Res :=
   let id := s.nextPop
   match s.items with
   | [] => ({ s with waiters := s.waiters ++ [id], nextPop := id + 1 }, Res.pop id none)
   | x :: xs =>
-      match s.blocked with
-      | [] =>
-          ({ s with items := xs, nextPop := id + 1,
-                    assigned := s.assigned ++ [(id, x)],
-                    completed := s.completed ++ [Ev.pop id (Out.val x.1 x.2)] },
-           Res.pop id (some (Out.val x.1 x.2)))
-      | b :: bs =>
-          ({ s with items := xs ++ [b], blocked := bs, nextPop := id + 1,
-                    inflight := s.inflight ++ [Ev.push b.1 Out.ok],
-                    assigned := s.assigned ++ [(id, x)],
-                    completed := s.completed ++ [Ev.pop id (Out.val x.1 x.2)] },
-           Res.pop id (some (Out.val x.1 x.2)))
+      if throwsAt g n 1 then (s, Res.threw)
+      else
+        ({ s with items := xs ++ (admitLoop g n 2 s.blocked).2.1.toList, blocked := (admitLoop g n 2 s.blocked).2.2,
+                  nextPop := id + 1,
+                  withdrawn := s.withdrawn ++ (admitLoop g n 2 s.blocked).1.map (·.1),
+                  inflight := s.inflight ++ (admitLoop g n 2 s.blocked).1.map (fun b => Ev.push b.1 Out.itemerr)
+                                ++ (admitLoop g n 2 s.blocked).2.1.toList.map (fun b => Ev.push b.1 Out.ok),
+                  assigned := s.assigned ++ [(id, x)],
+                  completed := s.completed ++ [Ev.pop id (Out.val x.1 x.2)] },
+         Res.pop id (some (Out.val x.1 x.2)))
+
+/-- `pop` of nothrow items -/
+def stepPop (s : State) : State × Res := stepPopF s 0 0
 
 def stepUpop (s : State) (c : Nat) : State × Res :=
   match s.waiters with
@@ -104,6 +164,11 @@ def stepUpush (s : State) (c : Nat) : State × Res :=
   | [] => (s, Res.flag false)
   | b :: bs => ({ s with blocked := bs, withdrawn := s.withdrawn ++ [b.1],
                          inflight := s.inflight ++ [Ev.push b.1 (Out.exc c)] }, Res.flag true)
+
+/-- `unblock_push` under a fault plan: hand-over #1 moves the `{item, promise}` pair out of `_blocked.front()`
+(queue.h:350) before `_blocked.pop()`; when it throws the exception leaves `unblock_push`, nothing changed. -/
+def stepUpushF (s : State) (c g n : Nat) : State × Res :=
+  if !s.blocked.isEmpty && throwsAt g n 1 then (s, Res.threw) else stepUpush s c
 
 /-- destructor: every parked promise is dropped (resolved without value) -/
 def stepDestroy (s : State) : State × Res :=
@@ -127,6 +192,10 @@ def stepLive (s : State) (op : Op) : State × Res :=
   | Op.empty => (s, Res.flag s.items.isEmpty)
   | Op.destroy => stepDestroy s
   | Op.deliver k => stepDeliver s k
+  | Op.pushthrow => stepPushThrow s
+  | Op.pushmv v g n => stepPushMv s v g n
+  | Op.popthrow g n => stepPopF s g n
+  | Op.upushthrow c g n => stepUpushF s c g n
 
 def step (s : State) (op : Op) : State × Res :=
   match op with
@@ -158,5 +227,27 @@ def stepAsIs (s : State) (op : Op) : State × Res :=
   | _ => step s op
 
 def runAsIs (s : State) (ops : List Op) : State := ops.foldl (fun s op => (stepAsIs s op).1) s
+
+/-- `pop` as it was before fix 2877284: after the delivery (#1) and `_queue.pop()` the `{item, promise}` pair of the
+oldest blocked producer was moved into a local (#2) and its item from there into the queue (#3), with nothing to stop
+an exception: it left `pop()` while the consumer's `future<T>` was still under construction - the delivered item died
+with it (nobody received it), the queue stayed one item short with producers still blocked; at #3 the local pair was
+destroyed as well: the producer's push ended as canceled while its (moved-from) entry stayed in `_blocked`. -/
+def stepPopAsIs (s : State) (g n : Nat) : State × Res :=
+  match s.items, s.blocked with
+  | _ :: xs, b :: _ =>
+      if throwsAt g n 1 then (s, Res.threw)
+      else if throwsAt g n 2 then ({ s with items := xs }, Res.threw)
+      else if throwsAt g n 3 then
+        ({ s with items := xs, completed := s.completed ++ [Ev.push b.1 Out.canceled] }, Res.threw)
+      else stepPopF s 0 0
+  | _, _ => stepPopF s g n
+
+def stepAsIsPop (s : State) (op : Op) : State × Res :=
+  match op with
+  | Op.popthrow g n => if s.alive then stepPopAsIs s g n else (s, Res.bad)
+  | _ => step s op
+
+def runAsIsPop (s : State) (ops : List Op) : State := ops.foldl (fun s op => (stepAsIsPop s op).1) s
 
 end Cocls.LQ
